@@ -56,7 +56,8 @@ def checkjump_post(x, x_new, x_lims, t, jump_time, jumps, result):
 
 
 class SimProbe:
-    def __init__(self, hostile=None, step_cap=60000, conserve_sum=False):
+    def __init__(self, hostile=None, step_cap=60000, conserve_sum=False, limits=None):
+        self.limits = limits
         self.hostile = hostile
         self.step_cap = step_cap
         self.conserve_sum = conserve_sum
@@ -80,7 +81,7 @@ class SimProbe:
 
         def counted_post(x, x_new, x_lims, t, jump_time, jumps, result):
             probe.counters["contract_evaluations"] += 1
-            return checkjump_post(x, x_new, x_lims, t, jump_time, jumps, result)
+            return checkjump_post(x, x_new, probe.limits if probe.limits is not None else x_lims, t, jump_time, jumps, result)
 
         if icontract is not None:
             contracted = icontract.ensure(counted_post, error=ContractBroken)(orig_check)
@@ -94,7 +95,7 @@ class SimProbe:
         def checkJump(x, x_new, x_lims, t, jump_time, jumps):
             probe.counters["checkjump_calls"] += 1
             xn = np.asarray(x_new, dtype=float)
-            ok, why = inside(xn, x_lims)
+            ok, why = inside(xn, probe.limits if probe.limits is not None else x_lims)
             if probe.conserve_sum:
                 probe.counters["proposals_sum_checked"] += 1
                 if float(np.sum(xn)) != float(np.sum(np.asarray(x, dtype=float))):
